@@ -19,7 +19,7 @@ import sys
 from hypothesis import strategies as st
 
 from pbt import charsets as cs
-from pbt import dsl, findings, treecheck
+from pbt import dsl, findings, pat, treecheck
 from pbt.common import Violation, case_hash, run_hypothesis
 
 ID = 'C20'
@@ -50,6 +50,9 @@ def snapshot(p, texts):
         snap.append([dsl.observe(rx, t) for t in texts])
     except (re.error, RecursionError, OverflowError):
         snap.append('uncompilable')
+        return snap
+    # behaviour through the public matching API (both code paths: with and without a retained compiled pattern)
+    snap.append([pat.behaviour(p, t) for t in texts[:2]])
     return snap
 
 
@@ -149,7 +152,7 @@ def run_program(case, check, ctx=None):
                     p.get_compiled_pattern(discard_after=op[2])
                 else:
                     t = texts[op[2] % len(texts)]
-                    fps.append(['m', p.get_matches(t), p.has_match(t), p.is_exact_match(t)])
+                    fps.append(['m', pat.behaviour(p, t)])
                 touched.add(i)
             except re.error:
                 pass        # uncompilable member (C03's business)
